@@ -84,3 +84,8 @@ def strip_calls(node, methods=("strip", "lstrip", "rstrip")):
         peeled.append(node.func.attr)
         node = node.func.value
     return node, peeled
+
+
+def ordn(node):
+    """textual position of a node in the normalised tree (falls back to the line number)"""
+    return getattr(node, "_ord", getattr(node, "lineno", 0))
